@@ -190,8 +190,20 @@ def run(ctx):
     exp_df["observed"] = exp_df["observed"] - 3.2 * np.clip(np.sin((hod - 6) / 12 * np.pi), 0, None)
     hm_exp = HourlyModel().fit(HourlyBaselineData(exp_df, is_electricity_data=False), ignore_disqualification=True)
     hourly_models = [("ordinary", hm.to_json(), True)] + [("exporting", hm_exp.to_json(), False)]
-    for (mname, hjs, electric), (start, days) in [(hmod, sp) for hmod in hourly_models
-                                                  for sp in ([("2021-03-08", 14), ("2021-10-31", 10)] + ([("2021-06-01", 60)] if thorough else []))][: (3 if not thorough else 99)]:
+    # a baseline that covers every month and weekday, but whose March Saturdays each lack 13 daytime hours of usage (a meter outage on
+    # every Saturday of one month): still every calendar cell is covered, so the property's hypothesis holds
+    gap_df = synth_hourly(days=365, seed=3)
+    gmask = (gap_df.index.month == 3) & (gap_df.index.dayofweek == 5) & (gap_df.index.hour >= 7) & (gap_df.index.hour < 20)
+    gap_df.loc[gmask, "observed"] = np.nan
+    try:
+        hm_gap = HourlyModel().fit(HourlyBaselineData(gap_df, is_electricity_data=True), ignore_disqualification=True)
+        hourly_models.append(("saturday_outages_in_march", hm_gap.to_json(), True))
+    except Exception as e:  # noqa
+        res["hist"]["hourly_gap_baseline_fit_failed:" + type(e).__name__] = 1
+    plan = [(hmod, sp) for hmod in hourly_models[:2]
+            for sp in ([("2021-03-08", 14), ("2021-10-31", 10)] + ([("2021-06-01", 60)] if thorough else []))][: (3 if not thorough else 99)]
+    plan += [(hmod, ("2021-03-01", 21)) for hmod in hourly_models[2:]]
+    for (mname, hjs, electric), (start, days) in plan:
         idx = pd.date_range(pd.Timestamp(start, tz=TZ), periods=24 * days, freq="h")
         h = np.arange(len(idx))
         temp = pd.Series(55 + 20 * np.sin(h / 24 * 6.283), index=idx, name="temperature")
